@@ -40,6 +40,33 @@ def nontrivial(r):
     return r.get("op") == "revset" and len(r["opt"]) >= 2 and depth(r["e"]) >= 2
 
 
+def gens_of(par):
+    g = [0]
+    for ps in par:
+        g.append(1 + max(g[p] for p in ps))
+    return g
+
+
+def order_disagrees(par):
+    """index position order (= id order) and generation order disagree somewhere"""
+    g = gens_of(par)
+    return any(g[c] > g[d] for c in range(1, len(g)) for d in range(c + 1, len(g)))
+
+
+def bounded_multi_root(e):
+    """a descendants/children node with a bounded generation range other than 1..2 over a
+    multi-element (or compound) root set occurs in e"""
+    if e.get("t") == "desc" and e["hi"] < 1000 and (e["lo"], e["hi"]) != (1, 2):
+        x = e["x"]
+        if x.get("t") != "commits" or len(x["ids"]) >= 2:
+            return True
+    return any(bounded_multi_root(v) for v in e.values() if isinstance(v, dict))
+
+
+def in_focus_class(r):
+    return r.get("op") == "revset" and bounded_multi_root(r["e"]) and order_disagrees(r["par"])
+
+
 def run(ctx):
     rnd = random.Random(ctx.seed)
     cfg = ctx.q("MC_Revset", "MC_Revset_thorough")
@@ -47,9 +74,13 @@ def run(ctx):
     ctx.add_mc(r, cfg)
     vf.tlc_mc("MC_Revset", "MC_Revset_neg_gen", expect_violation="InvFoldGeneration", workers=4, timeout=600)
     ctx.cov["tlc_runs"].append({"run": "negative:gen_hi_inclusive", "outcome": "fails as required (InvFoldGeneration)"})
-    n_enum = len(cases)
-    k = ctx.q(5000, 20000)
-    picked = cases if len(cases) <= k else rnd.sample(cases, k)
+    # focus domain: generation-bounded walks from multi-element sets on shapes where index
+    # position order and generation order disagree (always replayed completely)
+    focus, rf = vf.tlc_generate("MC_Revset", "MC_Revset_focus", workers=ctx.q(8, 12), timeout=900, seed=ctx.seed)
+    ctx.add_mc(rf, "MC_Revset_focus")
+    n_enum = len(cases) + len(focus)
+    k = ctx.q(4000, 20000)
+    picked = (cases if len(cases) <= k else rnd.sample(cases, k)) + focus
     by = {}
     for c in picked:
         by.setdefault(c["shape"], []).append(c)
@@ -61,7 +92,7 @@ def run(ctx):
     t1 = ctx.path("replay.ndjson")
     ctx.harness("index", ["revset-replay", "--in", cf, "--out", t1, "--seed", ctx.seed], env=env, timeout=1800)
     t2 = ctx.path("random.ndjson")
-    ctx.harness("index", ["revset-random", "--out", t2, "--seed", ctx.seed, "--n", ctx.q(40, 120), "--exprs", ctx.q(40, 60),
+    ctx.harness("index", ["revset-random", "--out", t2, "--seed", ctx.seed, "--n", ctx.q(41, 121), "--exprs", ctx.q(40, 60),
                           "--maxn", 12, "--depth", 5], env=env, timeout=1800)
     sig = lambda rec, verdict: "%s:%s" % (verdict, rec.get("e", {}).get("t", "-"))
     j1 = vf.judge_records(ctx, "Trace_Revset", t1, sig_fn=sig, nontrivial_fn=nontrivial, chunk=ctx.q(1300, 3000))
@@ -82,6 +113,10 @@ def run(ctx):
     ctx.cov["enumerated_cases_replayed"] = len(picked)
     ctx.cov["exhaustive"] = len(picked) == n_enum
     ctx.cov["random_cases"] = len(recs)
+    ctx.cov["bounded_descendants_of_multi_root_sets_where_position_and_generation_order_disagree"] = {
+        "enumerated": sum(1 for x in j1["records"] if in_focus_class(x)),
+        "random": sum(1 for x in recs if in_focus_class(x)),
+        "with_nonempty_result": sum(1 for x in j1["records"] + recs if in_focus_class(x) and len(x["opt"]) >= 1)}
     ctx.cov["forms_exercised"] = forms
     ctx.cov["rule"] = ("record = one expression evaluated by the real engine (optimised and unoptimised) on a real repo; "
                        "non-trivial = expression depth >= 2 and a result with >= 2 commits; distinct by full record")
